@@ -220,3 +220,14 @@ def b2v(b):
 
 def mk_int(n):
     return V.ival(z3.IntVal(n))
+
+
+def forall(vs, body, patterns=None):
+    """ForAll with explicit patterns when z3 accepts them (a pattern over an array
+    term containing ite is rejected), else let z3 infer."""
+    if patterns:
+        try:
+            return z3.ForAll(vs, body, patterns=patterns)
+        except z3.Z3Exception:
+            pass
+    return z3.ForAll(vs, body)
